@@ -36,7 +36,8 @@ def make_tree(case, rng):
     t = (TypedTree if typed else Tree)("t")
     n = gen.size(f)
     lab = case["lab"]
-    kind = (lambda i: "kab"[(i * 7 + 1) % 3]) if typed else None
+    # two-character kinds built at run time: equal strings, distinct objects
+    kind = (lambda i: "".join(["k", "abc"[(i * 7 + 1) % 3]])) if typed else None
     if lab == "uniq":
         nodes = gen.build(t, f, lambda i: f"n{i}", kind=kind)
     elif lab == "clones":
